@@ -184,6 +184,19 @@ theorem tie_providerConds : providerConds =
      "case auth.ErrObsoleteToken", "if errStatus(err) == http.StatusUnauthorized", "if err != nil",
      "if strings.HasPrefix(aca.UUID, remoteID)", "if err != nil", "default"] := by decide
 
+/-- every statement of the provider that writes `tokens` or `incoming`: the result list is only
+ever appended to (it starts as the nil slice of `var tokens []string`, never as a slice of the
+caller's credentials), and `incoming` is only read — the provider has no effect on the request
+context (`provSeq` is a plain `map`) -/
+theorem tie_providerTokenAssigns : providerTokenAssigns =
+    ["incoming, ok := auth.FromContext(ctx)",
+     "tokens = append(tokens, salted)",
+     "tokens = append(tokens, token)",
+     "tokens = append(tokens, token)",
+     "tokens = append(tokens, token)",
+     "tokens = append(tokens, token)",
+     "tokens = append(tokens, salted)"] := by decide
+
 theorem tie_providerCalls : providerCalls =
     ["auth.FromContext", "auth.SaltToken", "local.APIClientAuthorizationCurrent", "errStatus",
      "strings.HasPrefix", "auth.SaltToken"] := by decide
